@@ -641,3 +641,61 @@ def L6_panic_path(ctx):
             if pk and calls(p, 'Scheduler>::cancel'):
                 okd = True
     ctx.ob('L6', 'CancelOnPanic::drop', 'drop-cancels-while-panicking', okd, '')
+
+
+WHO_CALLS = [
+    # (callee pattern, allowed callers (last path segment), why)
+    ('SchedulerContext::publish_finality', {'run_finality_loop'}, 'only the finality coordinator advances the finality cursor'),
+    ('SchedulerContext::publish_commit', {'run_commit_loop'}, 'only ordered commit advances the committed cursor'),
+    ('SchedulerContext::unconfirmed', {'validate'}, 'validation timestamps are written by validate() under TS[txid]'),
+    ('SchedulerContext::executed', {'execute_task'}, 'the execution frontier is fed by completed attempts only'),
+    ('SchedulerContext::logical_timestamp', {'validate'}, 'validation ticks'),
+    ('Beneficiary::record_execution', {'execute_task'}, 'history publication belongs to the attempt that produced it'),
+    ('Beneficiary::record_estimate', {'execute_task'}, 'history publication belongs to the attempt that produced it'),
+    ('Beneficiary::invalidate', {'validate'}, 'only a failed validation invalidates an exact entry'),
+    ('Scheduler::mark_mv_estimate', {'execute_task', 'validate'}, 'estimate marks are issued by the owner of the incarnation under TS[txid]'),
+    ('TxDependency::commit', {'run_commit_loop'}, 'commit-boundary release'),
+    ('TxDependency::key_tx', {'execute_task'}, 'self-barrier of an errored attempt'),
+    ('OrderedCommitter::commit', {'run_commit_loop'}, 'state is committed by the ordered commit thread only'),
+    ('Scheduler::install_commit_loop_result', {'parallel_execute_inner'}, 'outcomes are installed once, after the scope joined'),
+    ('ParallelCacheState::apply_evm_state_inner', {'commit', 'apply_evm_state'}, 'cache state changes only through commit'),
+]
+
+
+def WHO_tables(ctx):
+    facts = ctx.facts
+    for pat, allowed, why in WHO_CALLS:
+        callers = set()
+        for b, bl, t in facts.callers_of(lambda c: norm_callee(c).endswith(pat) or callee_matches(c, pat)):
+            if facts.is_test(b['fn'], b):
+                continue
+            callers.add(re.sub(r'::\{closure#\d+\}', '', b['fn']).split('::')[-1])
+        ctx.ob('WHO', pat, 'who-may-call', bool(callers) and callers <= allowed, f'callers {sorted(callers)}; allowed {sorted(allowed)}', what=why)
+    # tx_results writers: stores (assignments through the guard) and takes
+    w = collections.defaultdict(set)
+    for b in facts.production():
+        txt = json.dumps(b['blocks'])
+        if 'scheduler::Scheduler.tx_results' not in txt:
+            continue
+        f = facts.fn(b)
+        try:
+            ps = f.paths(budget=40000)
+        except PathBudget:
+            continue
+        for p in ps:
+            for e in p.events:
+                if e.kind == 'assign' and e.d['place'][0] == 'call' and mentions_field(e.d['place'], 'Scheduler.tx_results'):
+                    w[b['fn'].split('::')[-1]].add('store')
+                if e.kind == 'call' and norm_callee(e.d['callee']).endswith('Option::take') and mentions_field(e.d['args'][0], 'Scheduler.tx_results'):
+                    w[b['fn'].split('::')[-1]].add('take')
+                if e.kind == 'call' and callee_matches(e.d['callee'], 'mem::take') and mentions_field(e.d['args'][0], 'Scheduler.tx_results'):
+                    w[b['fn'].split('::')[-1]].add('take-field')
+    exp = {'execute_task': {'store', 'take-field'}, 'run_commit_loop': {'take'}}
+    ctx.ob('WHO', 'Scheduler.tx_results', 'who-writes-results', dict(w) == exp, f'{ {k: sorted(v) for k, v in w.items()} }',
+           what='a transaction result is stored by its own attempt and consumed exactly by ordered commit')
+    rw = set()
+    for b in facts.production():
+        if '"scheduler::Scheduler.results"' in json.dumps(b['blocks']):
+            rw.add(b['fn'].split('::')[-1])
+    ctx.ob('WHO', 'Scheduler.results', 'who-touches-outcomes', rw <= {'install_commit_loop_result', 'replay_uncommitted_suffix', 'take_result_and_state', 'build'} and 'install_commit_loop_result' in rw, f'{sorted(rw)}',
+           what='outcomes are written by the commit-result installation and by sequential replay only')
